@@ -1,7 +1,7 @@
 //! Contains the runtime for Brainfuck and a simple interpreter.
 
 use std::{
-    alloc::{alloc_zeroed, dealloc, Layout},
+    alloc::{alloc_zeroed, dealloc, handle_alloc_error, Layout},
     io::{stdin, stdout, Read, Write},
     mem, ptr,
 };
@@ -104,6 +104,9 @@ impl<C: CellType> Memory<C> {
         let new_layout = Layout::array::<C>(new_size).unwrap();
         // Safety: Layout is never zero-sized.
         let new_buffer = unsafe { alloc_zeroed(new_layout) as *mut C };
+        if new_buffer.is_null() {
+            handle_alloc_error(new_layout);
+        }
         if self.size != 0 {
             // Safety: If the old size is non-zero, the old region is valid.
             unsafe {
